@@ -43,7 +43,7 @@ def handleLouv : P String := do
   let (sp, nodes, edges) ← P.graph
   let weighted ← P.bool
   let res ← P.rat
-  let _seed ← P.nat
+  let _seed ← P.next
   let perms ← P.listOf (P.listOf P.nat)
   let rest ← get
   let (so, a) := buildBoth sp nodes edges
